@@ -249,7 +249,7 @@ func noteHang() {
 func (Area) Exec(input string) string {
 	f := strings.Fields(input)
 	switch f[0] {
-	case "hist", "close2", "indep", "opts":
+	case "hist", "close2", "indep", "opts", "rr":
 		if givenUp() {
 			return "!not-run-tree-hangs"
 		}
@@ -270,6 +270,16 @@ func (Area) Exec(input string) string {
 		verifx.SetHook(x.hook)
 		defer verifx.SetHook(nil)
 	}
+	var rx *rrExec
+	if f[0] == "rr" {
+		rx = newRRExec()
+		limit += 2 * limits().drive
+		if len(f) > 2 && f[1] == "t" {
+			limit += time.Duration(len(strings.Split(f[2], ","))) * 1500 * time.Millisecond
+		}
+		verifx.SetHook(rx.hook)
+		defer verifx.SetHook(nil)
+	}
 	done := make(chan string, 1)
 	go func() {
 		defer func() {
@@ -277,7 +287,9 @@ func (Area) Exec(input string) string {
 				done <- "PANIC " + common.HexS(fmt.Sprint(r))
 			}
 		}()
-		if x != nil {
+		if rx != nil {
+			done <- rx.run(f)
+		} else if x != nil {
 			done <- x.run()
 		} else {
 			done <- execOp(f)
@@ -298,6 +310,10 @@ func (Area) Exec(input string) string {
 			}
 			return strings.TrimSpace(x.snapshot() + " !watchdog")
 		}
+		if rx != nil {
+			rx.abandoned.Store(true)
+			return strings.TrimSpace(rx.snapshot() + " !watchdog")
+		}
 		return "!watchdog"
 	}
 }
@@ -316,6 +332,8 @@ func execOp(f []string) string {
 		return execAgg(f)
 	case "close2":
 		return execClose2(f)
+	case "once":
+		return execOnce(f)
 	case "indep":
 		return execIndep()
 	case "hfile":
